@@ -171,7 +171,10 @@ def selectUnchecked (P : SmallParams) (zero : Bool) (ws : Array Nat) (len : Nat)
         (Out.readU s.inv (invIdx + 1)) >>= fun e =>
           Out.ok ((e + ub * SB_BITS + (blockBits - 1)) / blockBits)
       else Out.ok ((ub + 1) * (SB_BITS / blockBits))
-    else Out.ok ((len + (blockBits - 1)) / blockBits)) >>= fun lastBlockIdx =>
+    else
+      -- ones selector: clipped to the superblock of the rank (commit db42763); zero selector: not
+      let full := (len + (blockBits - 1)) / blockBits
+      Out.ok (if zero then full else min full ((ub + 1) * (SB_BITS / blockBits)))) >>= fun lastBlockIdx =>
   (check (decide (blockIdx < cnt.abs.size))) >>= fun _ =>
   (check (decide (blockIdx ≤ lastBlockIdx))) >>= fun _ =>
   (check (decide (blockIdx < lastBlockIdx))) >>= fun _ =>
